@@ -63,6 +63,8 @@ func ruleAssert(c *Ctx) {
 			_ = info
 			if commaOk {
 				c.R.Hold("R-ASSERT", p.Pos(ta), f.Name, construct, "comma-ok form", false)
+			} else if p.poolValueOfType(f, ta) {
+				c.R.Hold("R-ASSERT", p.Pos(ta), f.Name, construct, "the asserted value is not plugin data: it comes from a package-level sync.Pool whose New function and every Put in the module supply a value of exactly the asserted type", false)
 			} else {
 				c.R.Violate("R-ASSERT", p.Pos(ta), f.Name, construct,
 					"single-result type assertion on data derived from plugin output: a value of another type panics the host (reachable from the stdout/stderr reader goroutines of Client.Start)", nil)
@@ -576,12 +578,17 @@ func ruleStdoutLines(c *Ctx) {
 		}
 		ok := true
 		var path []string
+		// a line may be given up (not sent) only through the arm of a select
+		// that receives from a channel closed by a defer of Start: Start has
+		// returned then, and nobody parses lines any more
+		ds := p.abandonChans(f)
+		stop := func(m *Node) bool { return isSend(m) || isAbandonRecv(info, m, ds) != nil }
 		for _, e := range scanN.Succs {
 			at, isAt := edgeAtom(info, e)
 			if !isAt || !(at.Kind == "call" && at.True) {
 				continue
 			}
-			seen := g.Reach([]*Node{e.To}, isSend, nil)
+			seen := g.Reach([]*Node{e.To}, stop, nil)
 			if _, back := seen[scanN]; back {
 				ok = false
 				path = p.PathTo(seen, scanN)
@@ -664,5 +671,285 @@ func (p *Prog) teeWriterNeverFails(c *Ctx, f *Func, w ast.Expr, pipe string) {
 			"the writer teed off the plugin's "+pipe+" "+bad+": io.TeeReader turns a short or failed write into a read error, the reader goroutine stops draining the pipe and the plugin blocks on it", nil)
 	} else {
 		c.R.Hold("R-DRAIN", p.Pos(w), f.Name, construct, "every return reports len(p), nil (or a bytes.Buffer write of p)", true)
+	}
+}
+
+// poolValueOfType: ta asserts the result of P.Get() for a package-level
+// sync.Pool P to type T, and everything that can be in P has static type T:
+// the New function literal of P's initialiser returns expressions of type T,
+// and every P.Put(x) in the module has an x of type T. P.New is never assigned.
+func (p *Prog) poolValueOfType(f *Func, ta *ast.TypeAssertExpr) bool {
+	info := f.Pkg.TypesInfo
+	call, ok := ast.Unparen(ta.X).(*ast.CallExpr)
+	if !ok || p.CalleeName(f, call) != "sync.Pool.Get" {
+		return false
+	}
+	se, ok := ast.Unparen(call.Fun).(*ast.SelectorExpr)
+	if !ok {
+		return false
+	}
+	pool, ok := identObj(info, se.X).(*types.Var)
+	if !ok || pool.IsField() || pool.Parent() != pool.Pkg().Scope() {
+		return false
+	}
+	want := info.TypeOf(ta.Type)
+	if want == nil {
+		return false
+	}
+	okNew, good := false, true
+	for _, pkg := range p.Pkgs {
+		pinfo := pkg.TypesInfo
+		for _, file := range pkg.Syntax {
+			ast.Inspect(file, func(x ast.Node) bool {
+				switch s := x.(type) {
+				case *ast.ValueSpec:
+					for i, nm := range s.Names {
+						if pinfo.Defs[nm] != types.Object(pool) || i >= len(s.Values) {
+							continue
+						}
+						cl, isLit := ast.Unparen(s.Values[i]).(*ast.CompositeLit)
+						if !isLit {
+							good = false
+							continue
+						}
+						for _, el := range cl.Elts {
+							kv, isKV := el.(*ast.KeyValueExpr)
+							if !isKV {
+								good = false
+								continue
+							}
+							if k, isID := kv.Key.(*ast.Ident); !isID || k.Name != "New" {
+								continue
+							}
+							fl, isFL := ast.Unparen(kv.Value).(*ast.FuncLit)
+							if !isFL {
+								good = false
+								continue
+							}
+							okNew = true
+							walkNoLit(fl.Body, func(y ast.Node) bool {
+								if rs, isRet := y.(*ast.ReturnStmt); isRet {
+									if len(rs.Results) != 1 || !types.Identical(pinfo.TypeOf(rs.Results[0]), want) {
+										good = false
+									}
+								}
+								return true
+							})
+						}
+					}
+				case *ast.AssignStmt:
+					for _, l := range s.Lhs {
+						if ls, isSel := ast.Unparen(l).(*ast.SelectorExpr); isSel && identObj(pinfo, ls.X) == types.Object(pool) {
+							good = false // P.New = ...
+						}
+						if identObj(pinfo, l) == types.Object(pool) {
+							good = false
+						}
+					}
+				case *ast.CallExpr:
+					if cs, isSel := ast.Unparen(s.Fun).(*ast.SelectorExpr); isSel && cs.Sel.Name == "Put" && identObj(pinfo, cs.X) == types.Object(pool) {
+						if len(s.Args) != 1 || !types.Identical(pinfo.TypeOf(s.Args[0]), want) {
+							good = false
+						}
+					}
+				case *ast.UnaryExpr:
+					if s.Op == token.AND && identObj(pinfo, s.X) == types.Object(pool) {
+						// &P handed elsewhere: its contents are no longer known
+						if _, isCallFun := p.Parent(s).(*ast.SelectorExpr); !isCallFun {
+							good = false
+						}
+					}
+				}
+				return true
+			})
+		}
+	}
+	return okNew && good
+}
+
+// ---------- R-POOL/clean: a pooled scratch object goes back into its pool empty ----------
+
+// rulePoolClean: an object taken from a sync.Pool and put back (directly or by
+// a defer) carries whatever it still holds into the next user - for the log
+// decoder, keys of one plugin's line into another line. From every statement
+// that fills the object (a call that is handed the object or its address, an
+// element store) every path to the function's exit therefore passes a reset of
+// it: clear(x), a loop that ranges over x and deletes each key
+// unconditionally, x.Reset(), or x = x[:0]. The error edge of the filling call
+// itself is exempt for encoding/json.Unmarshal into a map of interface values
+// (it validates the input before it stores anything).
+func rulePoolClean(c *Ctx) {
+	p := c.P
+	n := 0
+	for _, f := range p.Funcs {
+		if !notTesting(p, f) || f.Lit != nil {
+			continue
+		}
+		info := f.Pkg.TypesInfo
+		var objs []*types.Var
+		ast.Inspect(f.Body, func(x ast.Node) bool {
+			as, ok := x.(*ast.AssignStmt)
+			if !ok || len(as.Rhs) != 1 || len(as.Lhs) == 0 {
+				return true
+			}
+			r := ast.Unparen(as.Rhs[0])
+			if ta, isTA := r.(*ast.TypeAssertExpr); isTA {
+				r = ast.Unparen(ta.X)
+			}
+			if call, isCall := r.(*ast.CallExpr); isCall && p.CalleeName(f, call) == "sync.Pool.Get" {
+				if v, isVar := identObj(info, as.Lhs[0]).(*types.Var); isVar && !v.IsField() {
+					objs = append(objs, v)
+				}
+			}
+			return true
+		})
+		for _, v := range objs {
+			putBack := false
+			ast.Inspect(f.Body, func(x ast.Node) bool {
+				if call, ok := x.(*ast.CallExpr); ok && p.CalleeName(f, call) == "sync.Pool.Put" && len(call.Args) == 1 {
+					if a := ast.Unparen(call.Args[0]); identObj(info, a) == types.Object(v) {
+						putBack = true
+					} else if u, isU := a.(*ast.UnaryExpr); isU && identObj(info, u.X) == types.Object(v) {
+						putBack = true
+					}
+				}
+				return true
+			})
+			if !putBack {
+				continue
+			}
+			n++
+			g := p.Graph(f)
+			mentions := func(e ast.Expr) bool {
+				e = ast.Unparen(e)
+				if u, ok := e.(*ast.UnaryExpr); ok && u.Op == token.AND {
+					e = ast.Unparen(u.X)
+				}
+				return identObj(info, e) == types.Object(v)
+			}
+			isClean := func(m *Node) bool {
+				if m.Ast == nil {
+					return false
+				}
+				switch s := m.Ast.(type) {
+				case *ast.ExprStmt:
+					if call, ok := s.X.(*ast.CallExpr); ok {
+						if id, isID := callFunIdent(call); isID && id.Name == "clear" && len(call.Args) == 1 && mentions(call.Args[0]) {
+							return true
+						}
+						if se, isSel := ast.Unparen(call.Fun).(*ast.SelectorExpr); isSel && se.Sel.Name == "Reset" && mentions(se.X) {
+							return true
+						}
+					}
+				case *ast.AssignStmt:
+					if len(s.Lhs) == 1 && len(s.Rhs) == 1 && identObj(info, s.Lhs[0]) == types.Object(v) {
+						if sl, ok := ast.Unparen(s.Rhs[0]).(*ast.SliceExpr); ok && mentions(sl.X) && sl.Low == nil && sl.High != nil {
+							if k, isK := constInt(info, sl.High); isK && k == 0 {
+								return true
+							}
+						}
+					}
+				}
+				return false
+			}
+			// loops that drain the map
+			drainHeads := map[*Node]bool{}
+			ast.Inspect(f.Body, func(x ast.Node) bool {
+				rs, ok := x.(*ast.RangeStmt)
+				if !ok || identObj(info, rs.X) != types.Object(v) || rs.Key == nil {
+					return true
+				}
+				kv := identObj(info, rs.Key)
+				deletes, leaves := false, false
+				for _, st := range rs.Body.List {
+					if es, isES := st.(*ast.ExprStmt); isES {
+						if call, isCall := es.X.(*ast.CallExpr); isCall {
+							if id, isID := callFunIdent(call); isID && id.Name == "delete" && len(call.Args) == 2 && mentions(call.Args[0]) && identObj(info, call.Args[1]) == kv && kv != nil {
+								deletes = true
+							}
+						}
+					}
+				}
+				walkNoLit(rs.Body, func(y ast.Node) bool {
+					switch y.(type) {
+					case *ast.ReturnStmt, *ast.BranchStmt:
+						leaves = true
+					}
+					return true
+				})
+				if deletes && !leaves {
+					if hn := g.NodeOf(rs.X); hn != nil {
+						drainHeads[hn] = true
+					}
+				}
+				return true
+			})
+			bad := false
+			for _, m := range g.Nodes {
+				if m.Ast == nil || isClean(m) {
+					continue
+				}
+				fills := false
+				var errV types.Object
+				exemptErr := false
+				for _, call := range callsIn(m.Ast) {
+					if id, isID := callFunIdent(call); isID && (id.Name == "delete" || id.Name == "len" || id.Name == "clear") {
+						continue
+					}
+					nm := p.CalleeName(f, call)
+					if nm == "sync.Pool.Put" || nm == "sync.Pool.Get" {
+						continue
+					}
+					for _, a := range call.Args {
+						if mentions(a) {
+							fills = true
+							if nm == "encoding/json.Unmarshal" {
+								if mt, isMap := v.Type().Underlying().(*types.Map); isMap {
+									if it, isI := mt.Elem().Underlying().(*types.Interface); isI && it.Empty() {
+										exemptErr = true
+									}
+								}
+							}
+						}
+					}
+				}
+				if as, ok := m.Ast.(*ast.AssignStmt); ok {
+					for _, l := range as.Lhs {
+						if ix, isIx := ast.Unparen(l).(*ast.IndexExpr); isIx && mentions(ix.X) {
+							fills = true
+						}
+					}
+					if ev := assignedErrVar(info, m.Ast); ev != nil {
+						errV = ev
+					}
+				}
+				if _, isDefer := m.Ast.(*ast.DeferStmt); isDefer || !fills {
+					continue
+				}
+				cut := func(e *Edge) bool {
+					if !exemptErr || errV == nil {
+						return false
+					}
+					at, ok := edgeAtom(info, e)
+					return ok && at.Kind == "nil" && at.Op == token.NEQ && identObj(info, at.X) == errV
+				}
+				var starts []*Node
+				for _, e := range m.Succs {
+					starts = append(starts, e.To)
+				}
+				seen := g.Reach(starts, func(x *Node) bool { return isClean(x) || drainHeads[x] }, cut)
+				if _, out := seen[g.Exit]; out {
+					bad = true
+					c.R.Violate("R-POOL/clean", p.Pos(m.Ast), f.Name, "pooled "+v.Name()+" is reset before it goes back",
+						"an object taken from a sync.Pool is filled here and the function can then return (putting it back) without resetting it: what it still holds is carried into the next user of the pool - for the log decoder, fields of one plugin's line show up in another line", p.PathTo(seen, g.Exit))
+				}
+			}
+			if !bad {
+				c.R.Hold("R-POOL/clean", p.Pos(f.Node()), f.Name, "pooled "+v.Name()+" is reset before it goes back", "from every statement that fills the object every path to the exit passes clear/Reset/[:0] or a loop that deletes every key", true)
+			}
+		}
+	}
+	if n == 0 {
+		c.R.Hold("R-POOL/clean", "", "", "pooled scratch objects", "no function of the module takes an object from a sync.Pool and puts it back", false)
 	}
 }
